@@ -110,7 +110,11 @@ def stream_grad_fd(chk, i, rng):
     chk.count(("fd", label, n, K, scale, akind, via_softmax))
 
 
-STREAMS = {"grad_model": (stream_grad_model, 420, 6000), "grad_fd": (stream_grad_fd, 330, 5000)}
+def stream_reuse_grad(chk, i, rng):
+    c01.stream_reuse(chk, i, rng, with_grad=True)
+
+
+STREAMS = {"grad_model": (stream_grad_model, 420, 6000), "grad_fd": (stream_grad_fd, 330, 5000), "reuse": (stream_reuse_grad, 130, 1500)}
 
 if __name__ == "__main__":
     c01.main("C02", STREAMS,
